@@ -161,10 +161,9 @@ func (w *World) violate(prop, class string, nd *Node, format string, a ...any) {
 // ---- the driver loop ---------------------------------------------------------------------------
 
 func (w *World) runLoop() {
-	until := time.Duration(w.plan.UntilMs) * time.Millisecond
 	for w.evq.Len() > 0 && w.viol == nil {
 		ev := heap.Pop(&w.evq).(*event)
-		if ev.at > until {
+		if ev.at > time.Duration(w.plan.UntilMs)*time.Millisecond {
 			break
 		}
 		if d := ev.at - w.now(); d > 0 {
